@@ -18,6 +18,14 @@
 //!   `disc <id> <k|*>` `Clients::disconnect(endpoint id, Some(connection id of k) | None)`, then the
 //!                    cancelled actors are given time to exit
 //!   `close <k>`      the client of a registered connection closes its socket
+//!   `load <k> <dst> <n> <c|*> <b|f>`  revocation UNDER LOAD of registered connection k: its client has
+//!                    `b`: a pipelined backlog of n datagram frames for endpoint <dst> already written to the
+//!                    socket, or `f`: a writer task that keeps writing such frames until the socket closes,
+//!                    at the moment `Clients::disconnect(endpoint of k, Some(cid of k) | None)` is called
+//!                    (no await between the last write / the counter read and the call).  Observed: the
+//!                    relay's `send_packets_recv` counter (inbound datagram frames handled) after the call
+//!                    minus its value at the call, and whether the connection gets closed in bounded time.
+//!                    result `true+q` = call returned true, at most SLACK frames handled afterwards, closed
 //! After the script every open accept task is driven to its end (requested -> denied, admitted
 //! -> confirmed -> registered, in index order) and the final state is observed.
 //! output: `<result per op, comma separated> | <registry: id:active/inactive oldest first ...> | <served connections>`
@@ -25,12 +33,14 @@
 //!   served k = a ping sent by client k after quiescence is answered with the matching pong.
 use std::collections::HashMap;
 use std::net::Ipv4Addr;
-use std::sync::{Arc, Mutex};
+use std::sync::atomic::{AtomicBool, Ordering};
+use std::sync::{Arc, Mutex, OnceLock};
 use std::time::Duration;
 
 use iroh_base::{EndpointId, SecretKey};
 use iroh_relay::client::{Client, ClientBuilder, ConnectError};
-use iroh_relay::protos::relay::{ClientToRelayMsg, RelayToClientMsg};
+use iroh_relay::protos::relay::{ClientToRelayMsg, Datagrams, RelayToClientMsg};
+use iroh_relay::server::Metrics;
 use iroh_relay::server::clients::Clients;
 use iroh_relay::server::{
     Access, AccessControl, ClientRequest, ConnectionId, RelayConfig, Server, ServerConfig, verif_pause,
@@ -45,6 +55,10 @@ const P_ADMITTED: &str = "accept:admitted";
 /// Upper bound for every wait on the real server (an expiry is reported, never assumed).
 const WAIT: Duration = Duration::from_secs(3);
 const NUM_IDS: u64 = 4;
+/// Frames that may still be handled after `disconnect` returned (the operation in flight).
+const SLACK: u64 = 2;
+/// `load`: the disconnect call is made when the actor takes its TRIGGER_AT-th inbound frame.
+const TRIGGER_AT: usize = 20;
 
 fn secret(i: u64) -> SecretKey {
     let mut b = [0x33u8; 32];
@@ -89,6 +103,87 @@ impl AccessControl for GateAccess {
     }
     fn on_disconnect(&self, _endpoint_id: EndpointId, connection_id: ConnectionId) {
         self.0.disconnects.lock().unwrap().push(connection_id);
+    }
+}
+
+// ---------------------------------------------------------------------------------------------
+// A `disconnect` call placed INSIDE the run of a busy actor.
+//
+// On a one-thread runtime a harness task can never call `Clients::disconnect` while an actor is
+// in the middle of draining a backlog (the actor does not yield between frames).  What another
+// thread could do at that moment is done here from a `tracing` subscriber: the actor emits the
+// event `handle incoming frame` (server/client.rs, `Actor::handle_frame`, no lock held) once per
+// inbound frame, synchronously in its own loop; when the trigger is armed, the j-th such event
+// calls `Clients::disconnect` and reads the relay's frame counter right after the call returned.
+
+struct Armed {
+    countdown: usize,
+    clients: Clients,
+    key: EndpointId,
+    sel: Option<ConnectionId>,
+    metrics: Arc<Metrics>,
+}
+
+#[derive(Default)]
+struct Trigger {
+    on: AtomicBool,
+    armed: Mutex<Option<Armed>>,
+    /// (result of the call, `send_packets_recv` right after the call returned)
+    fired: Mutex<Option<(bool, u64)>>,
+}
+
+fn trigger() -> &'static Trigger {
+    static T: OnceLock<Trigger> = OnceLock::new();
+    T.get_or_init(Trigger::default)
+}
+
+struct FrameEvents;
+
+struct MsgIs<'a>(&'a str, bool);
+impl tracing::field::Visit for MsgIs<'_> {
+    fn record_debug(&mut self, field: &tracing::field::Field, value: &dyn std::fmt::Debug) {
+        if field.name() == "message" && format!("{value:?}") == self.0 {
+            self.1 = true;
+        }
+    }
+}
+
+fn wanted(m: &tracing::Metadata<'_>) -> bool {
+    m.is_event() && *m.level() == tracing::Level::TRACE && m.target() == "iroh_relay::server::client"
+}
+
+impl tracing::Subscriber for FrameEvents {
+    fn register_callsite(&self, m: &'static tracing::Metadata<'static>) -> tracing::subscriber::Interest {
+        if wanted(m) { tracing::subscriber::Interest::sometimes() } else { tracing::subscriber::Interest::never() }
+    }
+    fn enabled(&self, m: &tracing::Metadata<'_>) -> bool {
+        wanted(m) && trigger().on.load(Ordering::Relaxed)
+    }
+    fn new_span(&self, _: &tracing::span::Attributes<'_>) -> tracing::span::Id {
+        tracing::span::Id::from_u64(1)
+    }
+    fn record(&self, _: &tracing::span::Id, _: &tracing::span::Record<'_>) {}
+    fn record_follows_from(&self, _: &tracing::span::Id, _: &tracing::span::Id) {}
+    fn enter(&self, _: &tracing::span::Id) {}
+    fn exit(&self, _: &tracing::span::Id) {}
+    fn event(&self, event: &tracing::Event<'_>) {
+        let mut v = MsgIs("handle incoming frame", false);
+        event.record(&mut v);
+        if !v.1 {
+            return;
+        }
+        let t = trigger();
+        let mut armed = t.armed.lock().unwrap();
+        let Some(a) = armed.as_mut() else { return };
+        if a.countdown > 1 {
+            a.countdown -= 1;
+            return;
+        }
+        let a = armed.take().expect("armed");
+        t.on.store(false, Ordering::Relaxed);
+        let found = a.clients.disconnect(a.key, a.sel);
+        let post = a.metrics.send_packets_recv.get();
+        *t.fired.lock().unwrap() = Some((found, post));
     }
 }
 
@@ -138,6 +233,10 @@ struct Run {
     conns: Vec<Conn>,
     results: Vec<String>,
     faults: Vec<String>,
+    metrics: Arc<Metrics>,
+    /// oracle hits of `load` ops
+    load_hits: Vec<(String, String)>,
+    load_tags: Vec<String>,
 }
 
 impl Run {
@@ -262,14 +361,13 @@ impl Run {
         }
     }
 
-    async fn op_disc(&mut self, id: u64, sel: Option<usize>) -> String {
+    /// Books what the embedder means to revoke with `disconnect(id, sel)` and returns the call's
+    /// arguments plus the registered connections it can reach. `None`: `sel` names no connection.
+    fn prepare_disc(&mut self, id: u64, sel: Option<usize>) -> Option<(EndpointId, Option<ConnectionId>, Vec<ConnectionId>)> {
         let key = secret(id).public();
         let sel_cid = match sel {
             None => None,
-            Some(k) => match self.conns.get(k) {
-                Some(c) => Some(c.cid),
-                None => return "-".into(),
-            },
+            Some(k) => Some(self.conns.get(k)?.cid),
         };
         // what the embedder means to revoke: connections it admitted and has not been told the end of
         for (k, c) in self.conns.iter_mut().enumerate() {
@@ -289,11 +387,133 @@ impl Run {
         if let Some(c) = sel_cid {
             reach.retain(|x| *x == c);
         }
+        Some((key, sel_cid, reach))
+    }
+
+    async fn op_disc(&mut self, id: u64, sel: Option<usize>) -> String {
+        let Some((key, sel_cid, reach)) = self.prepare_disc(id, sel) else { return "-".into() };
         let found = self.clients.disconnect(key, sel_cid);
         if found {
             self.settle_gone(reach).await;
         }
         found.to_string()
+    }
+
+    async fn op_load(&mut self, k: usize, dst: u64, n: usize, by_cid: bool, flood: bool) -> String {
+        if self.conns.get(k).map(|c| c.phase) != Some(Phase::Registered) || self.conns[k].client.is_none() {
+            return "-".into();
+        }
+        let id = self.conns[k].id;
+        let dst_key = secret(dst).public();
+        let frame = move |i: usize| ClientToRelayMsg::Datagrams {
+            dst_endpoint_id: dst_key,
+            datagrams: Datagrams::from(&[0xC0u8, 0x08, (i >> 8) as u8, i as u8, 1, 2, 3, 4][..]),
+        };
+        let (key, sel_cid, reach) = self.prepare_disc(id, if by_cid { Some(k) } else { None }).expect("k exists");
+        // the call is made from inside the actor's run, at its TRIGGER_AT-th inbound frame from now
+        let t = trigger();
+        *t.fired.lock().unwrap() = None;
+        let direct = !flood && n < TRIGGER_AT;
+        if !direct {
+            *t.armed.lock().unwrap() = Some(Armed {
+                countdown: TRIGGER_AT,
+                clients: self.clients.clone(),
+                key,
+                sel: sel_cid,
+                metrics: self.metrics.clone(),
+            });
+            t.on.store(true, Ordering::Relaxed);
+        }
+        let start = self.metrics.send_packets_recv.get();
+        let mut writer: Option<JoinHandle<usize>> = None;
+        if flood {
+            let client = self.conns[k].client.take().expect("client");
+            let (_stream, mut sink) = client.split();
+            writer = Some(tokio::spawn(async move {
+                // bursts written without yielding, so that the relay-side stream is ready
+                // whenever the actor polls it
+                let mut sent = 0usize;
+                loop {
+                    let burst = tokio::task::unconstrained(async {
+                        for i in 0..256 {
+                            sink.feed(frame(sent + i)).await?;
+                        }
+                        sink.flush().await
+                    })
+                    .await;
+                    if burst.is_err() {
+                        return sent;
+                    }
+                    sent += 256;
+                    tokio::task::yield_now().await;
+                }
+            }));
+        } else {
+            let client = self.conns[k].client.as_mut().expect("client");
+            // one pipelined write, not interleaved with the actor
+            let ok = tokio::task::unconstrained(async {
+                let mut ok = true;
+                for i in 0..n {
+                    ok &= client.feed(frame(i)).await.is_ok();
+                }
+                ok & client.flush().await.is_ok()
+            })
+            .await;
+            // a failed write is no fault: on a multi-thread runtime the call placed in the actor can
+            // close the connection while the tail of the backlog is still being written
+            let _ = ok;
+        }
+        let (found, post) = if direct {
+            let found = self.clients.disconnect(key, sel_cid);
+            (found, self.metrics.send_packets_recv.get())
+        } else {
+            let fired = wait_until(|| t.fired.lock().unwrap().is_some()).await;
+            if !fired {
+                // the actor never got to its TRIGGER_AT-th frame
+                t.on.store(false, Ordering::Relaxed);
+                *t.armed.lock().unwrap() = None;
+                self.fault("trigger-not-fired");
+                let found = self.clients.disconnect(key, sel_cid);
+                (found, self.metrics.send_packets_recv.get())
+            } else {
+                t.fired.lock().unwrap().take().expect("fired")
+            }
+        };
+        if found {
+            self.settle_gone(reach).await;
+        }
+        let mut closed = self.conns[k].phase == Phase::Closed;
+        if let Some(w) = writer {
+            let abort = w.abort_handle();
+            if tokio::time::timeout(Duration::from_secs(2), w).await.is_err() {
+                closed = false;
+                abort.abort();
+            }
+        }
+        let after = self.metrics.send_packets_recv.get().saturating_sub(post);
+        if flood {
+            self.load_tags.push("flood".into());
+        } else {
+            // how much of the backlog was still unread when `disconnect` returned
+            let unread = (n as u64).saturating_sub(post.saturating_sub(start));
+            self.load_tags.push(if unread * 2 >= n as u64 && n > 0 { "backlog-unread-at-call".into() } else { "backlog-small-at-call".into() });
+        }
+        let mut tag = "q";
+        if after > SLACK {
+            tag = "served";
+            self.load_hits.push((
+                "C08:served-after-revocation".into(),
+                format!("connection {k}: {after} inbound datagram frames handled after Clients::disconnect returned {found} ({})", if flood { "flooding writer".to_string() } else { format!("backlog of {n}") }),
+            ));
+        }
+        if !closed {
+            tag = "open";
+            self.load_hits.push((
+                "C08:revoked-not-closed-under-load".into(),
+                format!("connection {k} still registered / its socket still accepts writes {} after Clients::disconnect returned {found}", if flood { "2 s under sustained flood" } else { "3 s" }),
+            ));
+        }
+        format!("{found}+{tag}")
     }
 
     async fn op_close(&mut self, k: usize) -> &'static str {
@@ -348,6 +568,7 @@ enum Op {
     Reg(usize),
     Disc(u64, Option<usize>),
     Close(usize),
+    Load(usize, u64, usize, bool, bool),
 }
 
 fn parse(payload: &str) -> Option<Vec<Op>> {
@@ -363,6 +584,21 @@ fn parse(payload: &str) -> Option<Vec<Op>> {
             ["disc", id, "*"] => Op::Disc(id.parse::<u64>().ok().filter(|i| *i < NUM_IDS)?, None),
             ["disc", id, k] => Op::Disc(id.parse::<u64>().ok().filter(|i| *i < NUM_IDS)?, Some(k.parse().ok()?)),
             ["close", k] => Op::Close(k.parse().ok()?),
+            ["load", k, dst, n, sel, mode] => Op::Load(
+                k.parse().ok()?,
+                dst.parse::<u64>().ok().filter(|i| *i < NUM_IDS)?,
+                n.parse::<usize>().ok().filter(|n| *n <= 2000)?,
+                match *sel {
+                    "c" => true,
+                    "*" => false,
+                    _ => return None,
+                },
+                match *mode {
+                    "f" => true,
+                    "b" => false,
+                    _ => return None,
+                },
+            ),
             _ => return None,
         };
         ops.push(op);
@@ -385,7 +621,18 @@ async fn run_case(ops: Vec<Op>) -> Exec {
     };
     let url: url::Url = format!("http://{}", server.http_addr().expect("http addr")).parse().unwrap();
     let clients = server.relay_service().expect("relay").clients().clone();
-    let mut run = Run { gate, clients, url, conns: Vec::new(), results: Vec::new(), faults: Vec::new() };
+    let metrics = server.metrics().server.clone();
+    let mut run = Run {
+        gate,
+        clients,
+        url,
+        conns: Vec::new(),
+        results: Vec::new(),
+        faults: Vec::new(),
+        metrics,
+        load_hits: Vec::new(),
+        load_tags: Vec::new(),
+    };
 
     let mut window_discs = 0usize;
     for op in &ops {
@@ -400,6 +647,7 @@ async fn run_case(ops: Vec<Op>) -> Exec {
             Op::Reg(k) => run.op_reg(*k).await.into(),
             Op::Disc(id, sel) => run.op_disc(*id, *sel).await,
             Op::Close(k) => run.op_close(*k).await.into(),
+            Op::Load(k, dst, n, by_cid, flood) => run.op_load(*k, *dst, *n, *by_cid, *flood).await,
         };
         run.results.push(r);
     }
@@ -471,6 +719,13 @@ async fn run_case(ops: Vec<Op>) -> Exec {
                 }
             }
         }
+    }
+    for (class, detail) in std::mem::take(&mut run.load_hits) {
+        ex.violation(class, detail);
+    }
+    ex.tags.extend(std::mem::take(&mut run.load_tags));
+    if ops.iter().any(|o| matches!(o, Op::Load(..))) {
+        ex.tags.push("revoked-under-load".into());
     }
     let infra = !run.faults.is_empty();
     for f in &run.faults {
@@ -557,6 +812,16 @@ impl Prop for C08 {
         for tail in ["close 2", "disc 0 2", "disc 0 1", "disc 0 0", "close 1", "close 0;close 2", "close 2;close 1", "disc 0 2;disc 0 1", "disc 0 *", "disc 0 1;close 2"] {
             out.push(format!("{three};{tail}"));
         }
+        // (3c) revocation under load: pipelined backlog / flooding writer, by connection id / endpoint id,
+        //      towards a connected peer / an absent endpoint, alone and with a displaced duplicate
+        let two: String = [thread_ops(0, 0, false), thread_ops(1, 1, false)].concat().join(";");
+        for sel in ["c", "*"] {
+            for (dst, n, mode) in [(1, 300, "b"), (3, 300, "b"), (3, 0, "f"), (1, 40, "b")] {
+                out.push(format!("{two};load 0 {dst} {n} {sel} {mode}"));
+            }
+            out.push(format!("{three};conn 1;allow 3;confirm 3;reg 3;load 2 1 300 {sel} b"));
+            out.push(format!("{three};load 1 3 300 {sel} b;load 2 3 0 {sel} f"));
+        }
         // (4) random interleavings of 1-4 accept threads over 1-3 endpoints with requests and closes
         let max_conns = if tier == Tier::Thorough { 4 } else { 3 };
         while out.len() < n {
@@ -601,6 +866,17 @@ impl Prop for C08 {
                     let sel = if rng.bool() || started == 0 { "*".to_string() } else { rng.usize_below(started).to_string() };
                     ops.push(format!("disc {id} {sel}"));
                 }
+                if started > 0 && rng.chance(1, 12) {
+                    let flood = rng.chance(1, 4);
+                    ops.push(format!(
+                        "load {} {} {} {} {}",
+                        rng.usize_below(started),
+                        if flood { 3 } else { rng.below(NUM_IDS) },
+                        if flood { 0 } else { *rng.pick(&[1u64, 64, 300]) },
+                        if rng.bool() { "c" } else { "*" },
+                        if flood { "f" } else { "b" }
+                    ));
+                }
                 if rng.chance(1, 40) {
                     // an op that is not enabled
                     ops.push(format!("{} {}", rng.pick(&["allow", "confirm", "reg", "close", "deny"]), rng.usize_below(nconn + 1)));
@@ -617,7 +893,17 @@ impl Prop for C08 {
         let Some(ops) = parse(payload) else {
             return Exec::new("bad-input").tag("bad-input");
         };
-        let rt = tokio::runtime::Builder::new_current_thread().enable_all().build().expect("runtime");
+        static SUB: OnceLock<()> = OnceLock::new();
+        SUB.get_or_init(|| {
+            let _ = tracing::subscriber::set_global_default(FrameEvents);
+        });
+        // a flooding writer needs a thread of its own to keep the relay-side socket non-empty
+        let flood = ops.iter().any(|o| matches!(o, Op::Load(_, _, _, _, true)));
+        let rt = if flood {
+            tokio::runtime::Builder::new_multi_thread().worker_threads(2).enable_all().build().expect("runtime")
+        } else {
+            tokio::runtime::Builder::new_current_thread().enable_all().build().expect("runtime")
+        };
         let ex = rt.block_on(run_case(ops));
         rt.shutdown_timeout(Duration::from_millis(200));
         ex
